@@ -570,6 +570,8 @@ where
     B: Bitmap + BitmapReplace + NewBitmap + Clone + Send + Sync + 'static,
 {
     fn drop(&mut self) {
+        // joining the daemon's threads below needs them to run freely
+        crate::sysshim::sched_release();
         self.peer = None;
         if let Some(mut d) = self.daemon.take() {
             let _ = d.wait();
